@@ -94,8 +94,8 @@ func rateStrings(maxLen int) hlib.Suite {
 			if r.Expired() {
 				return false
 			}
-			if len(s) >= 1 && !r.Mine() {
-				// shard on every string; prefixes still recurse
+			if !r.Mine() {
+				return true // another shard evaluates this string; the recursion still visits its extensions
 			}
 			r.Eval()
 			var n int
@@ -165,6 +165,9 @@ func stagesStrings(maxLen int) hlib.Suite {
 		allStrings(alpha, maxLen, func(s string) bool {
 			if r.Expired() {
 				return false
+			}
+			if !r.Mine() {
+				return true
 			}
 			r.Eval()
 			input := fmt.Sprintf("%q", s)
@@ -561,12 +564,18 @@ func yamlBytes(maxLen int) hlib.Suite {
 			if r.Expired() {
 				return false
 			}
+			if !r.Mine() {
+				return true
+			}
 			try(s, "short-document")
 			return true
 		})
 		for i := 0; i <= len(validYAML); i++ {
 			if r.Expired() {
 				return
+			}
+			if !r.Mine() {
+				continue
 			}
 			if i < len(validYAML) {
 				try(validYAML[:i]+validYAML[i+1:], "delete-one-byte")
